@@ -975,13 +975,28 @@ impl Session {
                 let masked = vec![bn, es];
                 let names = ["bn", "es"];
                 let before = crate::residue::scan(&masked);
+                // the context's own heap block: what is left INSIDE it after the drop (dead bytes that moves carried along)
+                // is judged by the object scans and the allocator monitor, which know which sightings are live; this scan
+                // is about copies parked anywhere else
+                let (own_p, own_n) = match (&cs, &cr) {
+                    (Some(c), _) => (&**c as *const dyn CtxS as *const u8 as usize, std::mem::size_of_val(&**c)),
+                    (_, Some(c)) => (&**c as *const dyn CtxR as *const u8 as usize, std::mem::size_of_val(&**c)),
+                    _ => (0, 0),
+                };
                 if let Some(c) = cs {
                     c.heap_drop();
                 }
                 if let Some(c) = cr {
                     c.heap_drop();
                 }
-                let after = crate::residue::scan(&masked);
+                let mut after = crate::residue::scan(&masked);
+                let mut own = 0usize;
+                for h in after.iter_mut() {
+                    let n0 = h.len();
+                    h.retain(|(_, a)| !(*a >= own_p && *a < own_p + own_n));
+                    own += n0 - h.len();
+                }
+                f.kv("own_block", own);
                 f.ok()
                     .kv("before", crate::residue::summary(&names, &before))
                     .kv("after", crate::residue::summary(&names, &after))
